@@ -48,6 +48,8 @@ CLASS_NAMES = ["Custom", "Grating", "Section", "Property", "Document", u"Klasse√
 # public attribute set on a writer that was constructed with sub-classing, the same after that writer has
 # already exported once with sub-classing, a writer without sub-classing that was switched on in between
 WRITER_HOWS = ["kw", "kw", "pos", "toggle", "toggle", "used", "flip"]
+# round 5: the ways a writer exports (each of them converts the documents as they are at that moment)
+WRITER_EXPORTS = ["graph", "graph", "turtle", "nt", "str", "file"]
 TEXTS = ["d1", "x y", "a\\b", "it's", u"√©", "100%", "a\\qb", "tab\tx", "-", "D. N. Adams", "a;b", "[x]", "?s", "{y}"]
 # strengthening round 2: line breaks of every flavour, texts that differ from a name only by case or by
 # surrounding blanks, the text of Python's None, a multi-digit number, a character outside the BMP
@@ -66,6 +68,34 @@ TEXTS += ["a#b", "x@en", "1^^xsd:int", "<u>", "$x", "odml:Section", "a\\", "\\n"
 # not render query text.
 ESCAPE_TEXTS = ["\\u0041", "x\\U0001F600", "\\u005cn"]
 ESCAPE_RE = re.compile(r"\\[uU][0-9A-Fa-f]{4}")
+# strengthening round 5: the words of the two query notations themselves (a value may contain them: they are
+# no syntax characters), of the parameter dictionary and of SPARQL, as whole values and inside values
+FUZZY_WORDS = ["HAVING", "BEHAVING", "SHAVING x", "x HAVING", "HAVING y", "FIND", "FINDER", "a FIND b HAVING c",
+               "having", "find x", "FIND sec", "BEHAVING RATS", "HAVINGS"]
+MATCH_WORDS = ["doc", "sec", "prop", "document", "section", "property", "name", "type", "value", "id", "Doc",
+               "Sec", "Prop", "Search", "prop name", "sec type", "docx", "value origin", "a section", "doc sec prop"]
+# (not the five words "SELECT * WHERE {" with the brace: find() hands out one text with the queries in it and
+# this harness takes that text apart at these words - a limitation of the harness, not of the search)
+SPARQL_WORDS = ["SELECT", "WHERE", "FILTER", "?d", "?s ?p", "odml", "rdf", "UNION", "OPTIONAL x", "}", "{", ".",
+                "SELECT * WHERE", "a odml", "true", "[]"]
+WORD_FAMILIES = {"fuzzy": FUZZY_WORDS, "match": MATCH_WORDS, "sparql": SPARQL_WORDS}
+# round 5: boundary values of the attributes that are not texts. Dates before the year 1000 (the text of a
+# date has a four digit year), the first and the last day a date can be, a leap day; uncertainties and values
+# whose text has an exponent, a sign, many digits, no fraction. (All of them read the same in Python and in
+# the export; the spellings a search has to use for booleans, datetimes and tuples are not demanded.)
+DATES = ["2020-01-02", "2020-01-02", "0999-03-04", "0001-01-01", "9999-12-31", "2000-02-29", "1000-01-01",
+         "0987-12-31", "1979-10-12", "0099-10-10"]
+NEAR_DATES = ["999-03-04", "2020-1-2", "2020-01-03", "0999-03-05", "99-10-10", "1-01-01"]
+UNCERTAINTIES = [{"f": "0.5"}, {"f": "0.5"}, {"f": "1e-07"}, {"f": "1e+20"}, {"f": "0.30000000000000004"},
+                 {"f": "2.0"}, {"f": "-0.1"}, {"f": "100.0"}, {"i": "5"}, {"f": "12345678.0"}]
+NEAR_UNCERTAINTIES = ["0.50", "0.7", "1e-7", "1E-07", "5.0", "100", "2", "0.3"]
+VALUE_KINDS = {"int": ("int", [{"i": "20"}, {"i": "25"}]), "string": ("string", ["x", "y z"]),
+               "float": ("float", [{"f": "1.5"}]), "none": (None, []),
+               "int2": ("int", [{"i": "-3"}, {"i": "0"}, {"i": "1000000000000000000000000000000"}, {"i": "20"}]),
+               "float2": ("float", [{"f": "1e-07"}, {"f": "-0.1"}, {"f": "100.0"}, {"f": "1e+20"}]),
+               "date": ("date", [{"d": "0999-03-04"}, {"d": "2020-01-02"}, {"d": "0001-01-01"}]),
+               "words": ("string", ["HAVING", "doc", "value", "[x]"])}
+REPOS = ["http://x.org/t.xml", "http://x.org/s.xml"]
 UNITS = ["mV", "s"]
 ORIGINS = ["f.xml", "my file.odml"]
 LONG_WORDS = {"doc": "document", "sec": "section", "prop": "property"}
@@ -96,7 +126,7 @@ def gen_docs(rng):
                 subs.append(gen_sec(rng, NAMES[ti], third))
             secs.append(gen_sec(rng, NAMES[si], subs))
         docs.append({"author": pick(rng, ["me", "D. N. Adams", "a\\b"]), "version": pick(rng, ["1", "v2"]),
-                     "date": pick(rng, ["2020-01-02"], 0.3), "repository": pick(rng, ["http://x.org/t.xml"], 0.15),
+                     "date": pick(rng, DATES, 0.3), "repository": pick(rng, ["http://x.org/t.xml"], 0.15),
                      # round 3: now and then a document that came from a file (the export then says so in
                      # a hasFileName triple the searches do not ask about)
                      "origin": pick(rng, ORIGINS, 0.15), "secs": secs})
@@ -132,18 +162,25 @@ def gen_writer(rng, specs, force_custom=False):
         custom = [[k, rng.choice(CLASS_NAMES)] for k in sorted(set(keys))]
     elif r < 0.6:
         custom = []
+    # round 5: what the same writer object was used for before the export that is searched - conversions and
+    # the other ways out (text, str, file), in any mix; the documents are as they are now all the time
+    hist = [rng.choice(WRITER_EXPORTS) for _ in range(rng.choice([1, 1, 2, 3]))] if rng.random() < 0.35 else []
     return {"how": rng.choice(WRITER_HOWS), "custom": custom, "single": rng.random() < 0.3,
-            "pre": rng.random() < 0.15}
+            "pre": rng.random() < 0.15, "hist": hist}
 
 
 def gen_sec(rng, name, subs):
     props = []
     for pi in range(rng.choice([0, 1, 2, 3])):
-        kind = rng.choice(["int", "string", "float", "none"])
-        vals = {"int": [{"i": "20"}, {"i": "25"}], "string": ["x", "y z"], "float": [{"f": "1.5"}], "none": []}[kind]
-        props.append({"name": NAMES[pi], "dtype": None if kind == "none" else kind,
-                      "values": vals[:rng.randrange(0, len(vals) + 1)] if vals else [],
-                      "unit": pick(rng, UNITS, 0.5), "uncertainty": pick(rng, [{"f": "0.5"}], 0.25),
+        kind = rng.choice(["int", "string", "float", "none", "int", "string", "float", "none",
+                           "int2", "float2", "date", "words"])
+        dtype, vals = VALUE_KINDS[kind]
+        if kind in ("int", "string", "float", "none"):
+            vals = vals[:rng.randrange(0, len(vals) + 1)] if vals else []
+        else:
+            vals = rng.sample(vals, rng.randrange(1, len(vals) + 1))
+        props.append({"name": NAMES[pi], "dtype": dtype, "values": vals,
+                      "unit": pick(rng, UNITS, 0.5), "uncertainty": pick(rng, UNCERTAINTIES, 0.25),
                       "definition": pick(rng, TEXTS, 0.4), "reference": pick(rng, TEXTS, 0.3),
                       "value_origin": pick(rng, TEXTS, 0.3)})
     # now and then one text in two attributes of one object (a combination asking for both has a hit)
@@ -180,6 +217,94 @@ def values_in_docs(docs):
         for s in d["secs"]:
             sec(s)
     return out
+
+
+def text_of(v):
+    """the text of a value of a document spec, as Python says it (u"%s" % value)"""
+    if isinstance(v, dict):
+        if "f" in v:
+            return repr(float(v["f"]))
+        return v.get("i") or v.get("d") or v.get("t") or v.get("dt")
+    return v if isinstance(v, str) else None
+
+
+def typed_in_docs(docs):
+    """what the documents carry in the attributes that are not plain texts:
+    {"date": [...], "uncertainty": [...], "doc_repo": [...], "sec_repo": [...], "values": [[texts of one Property]]}"""
+    out = {"date": [], "uncertainty": [], "doc_repo": [], "sec_repo": [], "values": []}
+
+    def sec(s):
+        if s.get("repository"):
+            out["sec_repo"].append(s["repository"])
+        for p in s["props"]:
+            if p.get("uncertainty") is not None:
+                out["uncertainty"].append(text_of(p["uncertainty"]))
+            texts = [text_of(v) for v in p.get("values") or []]
+            if texts and all(t is not None for t in texts):
+                out["values"].append(texts)
+        for c in s["subs"]:
+            sec(c)
+    for d in docs:
+        if d.get("date"):
+            out["date"].append(d["date"])
+        if d.get("repository"):
+            out["doc_repo"].append(d["repository"])
+        for s in d["secs"]:
+            sec(s)
+    return out
+
+
+def spec_secs(docs):
+    out = []
+
+    def sec(s):
+        out.append(s)
+        for c in s["subs"]:
+            sec(c)
+    for d in docs:
+        for s in d["secs"]:
+            sec(s)
+    return out
+
+
+def wordify(rng, docs, family):
+    """Round 5: the texts and names of the documents are words of the query notations / the parameter
+    dictionary / SPARQL (mostly of one family, so that several objects carry related words). Names stay
+    unique among siblings."""
+    pool = list(WORD_FAMILIES[family]) * 3 + FUZZY_WORDS + MATCH_WORDS + SPARQL_WORDS
+
+    def rename(objs):
+        seen = set()
+        for o in objs:
+            if rng.random() < 0.6:
+                cand = [w for w in pool if w not in seen and "/" not in w]
+                o["name"] = rng.choice(cand)
+            while o["name"] in seen:
+                o["name"] += "x"
+            seen.add(o["name"])
+
+    def sec(s):
+        for a in ("definition", "reference"):
+            if rng.random() < 0.45:
+                s[a] = rng.choice(pool)
+        if rng.random() < 0.35:
+            s["type"] = rng.choice(pool)
+        for pr in s["props"]:
+            for a in ("definition", "reference", "value_origin", "unit"):
+                if rng.random() < 0.3:
+                    pr[a] = rng.choice(pool)
+        rename(s["props"])
+        rename(s["subs"])
+        for c in s["subs"]:
+            sec(c)
+    for d in docs:
+        for a in ("author", "version"):
+            if rng.random() < 0.6:
+                d[a] = rng.choice(pool)
+        rename(d["secs"])
+        for s in d["secs"]:
+            sec(s)
+    return docs
 
 
 def part_order(opts):
@@ -224,7 +349,10 @@ def render_match(pairs, opts=None):
     for key in part_order(opts):
         mine = [p for p in pairs if p["k"] == key]
         if mine:
-            parts.append("%s(%s)" % (word_of(key, opts), ", ".join("%s:%s" % (p["a"], p["v"]) for p in mine)))
+            # the list of searched values is written value:[v1, v2] (round 5)
+            parts.append("%s(%s)" % (word_of(key, opts), ", ".join(
+                "value:[%s]" % ", ".join(p["vs"]) if p["a"] == "value" and key == "Prop" else "%s:%s" % (p["a"], p["v"])
+                for p in mine)))
     return " ".join(parts)
 
 
@@ -240,8 +368,26 @@ def to_params(pairs, opts=None):
         if isinstance(val, list) and (opts or {}).get("ints"):
             # the documented example passes numbers: ('value', [20, 25])
             val = [int(v) if re.match(r"-?[0-9]+$", v) else v for v in val]
+        if (opts or {}).get("objs"):
+            val = as_object(p, val)
         out.setdefault(p["k"], []).append((p["a"], val))
     return shape_params(out, "match", opts)
+
+
+def as_object(p, val):
+    """Round 5: the value as the Python object the document carries instead of its text (a date, a float,
+    an int) - only where the text of that object is the text asked for, so that the search is the same."""
+    import datetime
+    try:
+        if (p["k"], p["a"]) == ("Doc", "date"):
+            obj = datetime.date.fromisoformat(val)
+            return obj if u"%s" % obj == val else val
+        if (p["k"], p["a"]) == ("Prop", "uncertainty"):
+            obj = int(val) if re.match(r"-?[0-9]+$", val) else float(val)
+            return obj if u"%s" % obj == val else val
+    except (ValueError, TypeError):
+        pass
+    return val
 
 
 def shape_params(params, mode, opts=None):
@@ -277,7 +423,7 @@ def gen_opts(rng, specs=()):
     rng.shuffle(sorder)
     return {"shape": rng.choice(SHAPES), "korder": korder, "sorder": sorder,
             "words": rng.choice(["short", "short", "long"]), "via": rng.choice(VIAS),
-            "gpass": rng.choice(GPASS), "ints": rng.random() < 0.5,
+            "gpass": rng.choice(GPASS), "ints": rng.random() < 0.5, "objs": rng.random() < 0.3,
             # round 3: the writer's options, keys of kinds that are not asked about present with no entry
             "writer": gen_writer(rng, specs), "empty_kinds": rng.random() < 0.2}
 
@@ -299,12 +445,49 @@ def xml_safe(specs):
     return not any(re.search(u"[\x00-\x1f\x7f-\x9f\u2028\u2029\ufffe\uffff]", t) for t in texts(specs))
 
 
-def string_safe(pairs):
+def bracket_after_values(pairs):
+    """the shape of the open finding value_list_swallows_bracket: in the Property part a list of searched
+    values is followed by a pair whose text contains a closing square bracket"""
+    seen = False
+    for p in pairs:
+        if p["k"] != "Prop":
+            continue
+        if p["a"] == "value":
+            seen = True
+        elif seen and "]" in p["v"]:
+            return True
+    return False
+
+
+def turtle_safe(x):
+    """rdflib writes a double into turtle / n3 text with seven significant digits (0.30000000000000004 comes
+    back as 0.3): floats with more digits go through the n-triples text instead (a limitation of that
+    serialiser, not of the search; the graph the writer hands out carries them in full)"""
+    if isinstance(x, dict):
+        if "f" in x and len(x) == 1:
+            return float("%e" % float(x["f"])) == float(x["f"])
+        return all(turtle_safe(v) for v in x.values())
+    if isinstance(x, (list, tuple)):
+        return all(turtle_safe(v) for v in x)
+    return True
+
+
+def string_safe(pairs, with_finding=False):
     """Can the string form say these pairs? Values free of the query syntax characters, not blank at the
-    ends, not the value list. A line feed inside a value is no syntax character: since the repair of
-    string_form_line_feed (a288f96) such a value goes through the string form in every stream."""
-    return all(not re.search(r"[,():\"]", p["v"]) and p["v"] == p["v"].strip() and p["v"] and p["a"] != "value"
-               for p in pairs)
+    ends. A line feed inside a value is no syntax character: since the repair of
+    string_form_line_feed (a288f96) such a value goes through the string form in every stream.
+    Round 5: the list of searched values has a string form too, value:[v1, v2] (the only notation the parser
+    reads; the `value:20` of one docstring example is not read as a value pair and is not demanded). The shape
+    of the open finding value_list_swallows_bracket takes the string form in the oracle-only stream `sets`
+    only (with_finding), the model-tied streams send it through the dictionary."""
+    ok = lambda v: not re.search(r"[,():\"]", v) and v == v.strip() and v
+    for p in pairs:
+        if p["a"] == "value" and p["k"] == "Prop":
+            if not p["vs"] or not all(ok(v) for v in p["vs"]):
+                return False
+        elif p["a"] == "value" or not ok(p["v"]):
+            return False
+    return with_finding or not bracket_after_values(pairs)
 
 
 def parse_output(text):
@@ -401,31 +584,60 @@ class C20(fw.Check):
                     pairs.append({"k": key, "a": a, "v": v, "vs": []})
         if risky:
             r = rng.choice(["uncertainty", "uncertainty", "date", "date", "id", "id", "value", "value", "value", "value",
-                            "repository", "sections", "doc_sections", "properties", "sec_repository"])
+                            "repository", "repository", "sections", "doc_sections", "properties", "sec_repository",
+                            "sec_repository"])
             # (since the repair of the three query shapes - eb38590, 573e2b8, 57076b7 - these pairs have hits:
             # texts that are carried, texts that are not, texts that differ from a carried one in spelling only)
+            # Round 5: more often than not some object carries the attribute that is asked about (the document
+            # specs are completed here, before they are used), and the text asked for is taken from the documents.
+            secs = spec_secs(docs)
+            if rng.random() < 0.7:
+                if r == "date" and not any(d.get("date") for d in docs):
+                    rng.choice(docs)["date"] = rng.choice(DATES)
+                elif r == "repository" and not any(d.get("repository") for d in docs):
+                    rng.choice(docs)["repository"] = rng.choice(REPOS)
+                elif r == "sec_repository" and secs and not any(x.get("repository") for x in secs):
+                    rng.choice(secs)["repository"] = rng.choice(REPOS)
+                elif r == "uncertainty" and not any(p.get("uncertainty") for x in secs for p in x["props"]):
+                    props = [p for x in secs for p in x["props"]]
+                    if props:
+                        rng.choice(props)["uncertainty"] = rng.choice(UNCERTAINTIES)
+            have = typed_in_docs(docs)
             if r == "uncertainty":
-                pairs.append({"k": "Prop", "a": "uncertainty", "v": rng.choice(["0.5", "0.5", "0.50", "0.7"]), "vs": []})
+                pool = have["uncertainty"] if have["uncertainty"] and rng.random() < 0.65 else \
+                    ["0.5", "0.5"] + NEAR_UNCERTAINTIES + [text_of(u) for u in UNCERTAINTIES]
+                pairs.append({"k": "Prop", "a": "uncertainty", "v": rng.choice(pool), "vs": []})
             elif r == "date":
-                pairs.append({"k": "Doc", "a": "date", "v": rng.choice(["2020-01-02", "2020-01-02", "2020-01-03"]), "vs": []})
+                pool = have["date"] if have["date"] and rng.random() < 0.65 else DATES + NEAR_DATES
+                pairs.append({"k": "Doc", "a": "date", "v": rng.choice(pool), "vs": []})
             elif r == "id":
                 pairs.append({"k": rng.choice(KEYS), "a": "id", "v": rng.choice(["@first", "@first", "nobody"]), "vs": []})
             elif r == "value":
-                pairs.append({"k": "Prop", "a": "value", "v": "",
-                              "vs": rng.choice([["20"], ["x"], ["20", "25"], ["25", "20"], ["y z"], ["1.5"],
-                                                ["20", "x"], ["21"], ["x", "y z"], ["20", "21"], ["x", "y"],
-                                                # what the value node says about itself is no value
-                                                [c10.RDFNS + "Seq"]])})
+                if have["values"] and rng.random() < 0.55:
+                    # the values of one Property (all / some of them, in any order), now and then with a value
+                    # of another Property among them
+                    mine = rng.choice(have["values"])
+                    vs = rng.sample(mine, rng.randrange(1, min(len(mine), 3) + 1))
+                    if rng.random() < 0.25:
+                        vs.insert(rng.randrange(len(vs) + 1), rng.choice(rng.choice(have["values"])))
+                else:
+                    vs = rng.choice([["20"], ["x"], ["20", "25"], ["25", "20"], ["y z"], ["1.5"],
+                                     ["20", "x"], ["21"], ["x", "y z"], ["20", "21"], ["x", "y"],
+                                     ["-3"], ["0999-03-04"], ["999-03-04"], ["1e-07"], ["1e-7"], ["100.0"], ["100"],
+                                     ["1000000000000000000000000000000"], ["0", "-3"], ["HAVING"], ["doc", "value"],
+                                     # what the value node says about itself is no value
+                                     [c10.RDFNS + "Seq"]])
+                pairs.append({"k": "Prop", "a": "value", "v": "", "vs": list(vs)})
             elif r == "repository":
-                pairs.append({"k": "Doc", "a": "repository",
-                              "v": rng.choice(["http://x.org/t.xml", "http://x.org/t.xml", "http://x.org/s.xml"]), "vs": []})
+                pool = have["doc_repo"] if have["doc_repo"] and rng.random() < 0.65 else REPOS + have["sec_repo"]
+                pairs.append({"k": "Doc", "a": "repository", "v": rng.choice(pool), "vs": []})
             elif r == "doc_sections":
                 pairs.append({"k": "Doc", "a": "sections", "v": "a", "vs": []})
             elif r == "properties":
                 pairs.append({"k": "Sec", "a": "properties", "v": "a", "vs": []})
             elif r == "sec_repository":
-                pairs.append({"k": "Sec", "a": "repository",
-                              "v": rng.choice(["http://x.org/t.xml", "http://x.org/s.xml"]), "vs": []})
+                pool = have["sec_repo"] if have["sec_repo"] and rng.random() < 0.65 else REPOS + have["doc_repo"]
+                pairs.append({"k": "Sec", "a": "repository", "v": rng.choice(pool), "vs": []})
             else:
                 pairs.append({"k": "Sec", "a": "sections", "v": "x", "vs": []})
         if len(pairs) > 4:
@@ -451,7 +663,11 @@ class C20(fw.Check):
             key = rng.choice(KEYS)
             attrs.setdefault(key, []).insert(0, rng.choice(self.OTHER_ATTRS[key]))
             # a term such an attribute can carry
-            risky_term = {"date": "2020-01-02", "uncertainty": "0.5", "repository": "http://x.org/t.xml"}.get(attrs[key][0])
+            have = typed_in_docs(docs)
+            carried = {"date": have["date"], "uncertainty": have["uncertainty"],
+                       "repository": have["doc_repo"] if key == "Doc" else have["sec_repo"]}.get(attrs[key][0])
+            risky_term = rng.choice(carried) if carried and rng.random() < 0.7 else \
+                {"date": rng.choice(DATES), "uncertainty": "0.5", "repository": "http://x.org/t.xml"}.get(attrs[key][0])
         # the finder runs one query per combination: keep the number of pairs small
         while sum(len(v) for v in attrs.values()) > limit:
             k = rng.choice(sorted(attrs))
@@ -494,6 +710,9 @@ class C20(fw.Check):
         cases = []
         for i in range(n):
             sets = [gen_docs(rng) for _ in range(rng.choice([1, 2, 2]))]
+            if i % 6 == 5:
+                for specs in sets:
+                    wordify(rng, specs, "fuzzy" if i % 2 == 0 else "match")
             both = [d for s in sets for d in s]
             opts = gen_opts(rng)
             case = {"stream": "reuse", "sets": sets,
@@ -522,9 +741,73 @@ class C20(fw.Check):
             cases.append(case)
         return cases
 
+    def gen_whist(self, rng, n):
+        """Round 5 - histories over the WRITER (model-tied: every search is one `find` of the model on the
+        documents as they are at that moment). One writer object exports several times, by any of its ways
+        out, the caller edits the documents in between (texts, names, Sections added and removed, and the
+        attributes that are not texts: repositories set / changed / taken away, the date, an uncertainty);
+        the export of the moment is searched - for what was edited (new and old text) and for what the
+        documents carry in repositories, dates, uncertainties, values, ids."""
+        cases = []
+        for i in range(n):
+            docs = gen_docs(rng)
+            secs = spec_secs(docs)
+            # repositories on Documents and Sections more often than elsewhere (several objects share a URL)
+            for d in docs:
+                if rng.random() < 0.6:
+                    d["repository"] = rng.choice(REPOS)
+                if rng.random() < 0.4:
+                    d["date"] = rng.choice(DATES)
+            for x in secs:
+                if rng.random() < 0.4:
+                    x["repository"] = rng.choice(REPOS)
+            if i % 5 == 4:
+                wordify(rng, docs, rng.choice(sorted(WORD_FAMILIES)))
+            opts = gen_opts(rng, docs)
+            steps, asked = [], []
+            for si in range(rng.choice([2, 2, 3])):
+                edits, touched = self.gen_edits(rng, docs) if si and rng.random() < 0.7 else ([], [])
+                asked += touched
+                steps.append({"via": rng.choice(WRITER_EXPORTS), "edits": edits, "search": rng.random() < 0.5})
+            steps[-1]["search"] = True
+            have = typed_in_docs(docs)
+            cand = [("Doc", "repository", v) for v in have["doc_repo"]] + \
+                [("Sec", "repository", v) for v in have["sec_repo"]] + [("Doc", "date", v) for v in have["date"]] + \
+                [("Prop", "uncertainty", v) for v in have["uncertainty"]]
+            rng.shuffle(asked)
+            rng.shuffle(cand)
+            pairs = []
+            for k, a, v in asked[:2] + cand[:2] + [("Doc", "repository", rng.choice(REPOS))]:
+                if (k, a) not in [(q["k"], q["a"]) for q in pairs] and len(pairs) < 2:
+                    pairs.append({"k": k, "a": a, "v": v, "vs": []})
+            more = self.gen_pairs(rng, docs, rng.random() < 0.4)
+            rng.shuffle(more)
+            pairs += [q for q in more if (q["k"], q["a"]) not in [(x["k"], x["a"]) for x in pairs]][:1]
+            case = {"stream": "whist", "docs": docs, "steps": steps, "how": rng.choice(["dict", "dict", "str"]),
+                    "opts": {"shape": opts["shape"], "korder": opts["korder"], "sorder": opts["sorder"],
+                             "words": opts["words"], "empty_kinds": opts["empty_kinds"], "objs": opts["objs"],
+                             "gpass": opts["gpass"]},
+                    "writer": dict(gen_writer(rng, docs), pre=False)}
+            if i % 3 == 2:
+                case["mode"] = "fuzzy"
+                k, a, v = (pairs[0]["k"], pairs[0]["a"], pairs[0]["v"])
+                attrs = {k: [a]}
+                other = rng.choice([x for x in KEYS if x != k])
+                attrs[other] = [rng.choice(STR_ATTRS[other])]
+                present = [t[2] for t in values_in_docs(docs) if t[0] == other]
+                case["attrs"] = attrs
+                case["search"] = [v] + ([rng.choice(present)] if present and rng.random() < 0.6 else [])
+            else:
+                case["mode"] = "match"
+                case["pairs"] = pairs
+            cases.append(case)
+        return cases
+
     SET_KINDS = ["empty", "twice", "clone", "deep", "many", "unnamed", "link", "numeric", "plain", "plain",
                  # round 3
-                 "typed", "edited", "loaded", "escape", "wide", "dtypes"]
+                 "typed", "edited", "loaded", "escape", "wide", "dtypes",
+                 # round 5
+                 "valuestr", "surrogate", "valuestr"]
 
     @staticmethod
     def all_secs(specs):
@@ -539,14 +822,17 @@ class C20(fw.Check):
                 sec(s)
         return out
 
-    def gen_edits(self, rng, docs):
+    def gen_edits(self, rng, docs, typed=True):
         """what the caller does to the documents between two conversions of one writer
         -> (edits, [(kind, attribute, new text)])"""
         edits, touched = [], []
-        attr_of = {"retype": "type", "rename": "name", "redefine": "definition", "del_sec": "name"}
+        attr_of = {"retype": "type", "rename": "name", "redefine": "definition", "del_sec": "name",
+                   "sec_repo": "repository"}
         for _ in range(rng.choice([1, 2, 3])):
             di = rng.randrange(len(docs))
-            op = rng.choice(["retype", "retype", "rename", "redefine", "add_sec", "del_sec", "del_prop", "author"])
+            op = rng.choice(["retype", "retype", "rename", "redefine", "add_sec", "del_sec", "del_prop", "author"] +
+                            # round 5: repositories set / changed / taken away, the date, an uncertainty
+                            (["repo", "repo", "sec_repo", "sec_repo", "date", "unc"] if typed else []))
             e = {"op": op, "doc": di, "sec": rng.randrange(3)}
             secs = docs[di]["secs"]
             if op in attr_of and secs:
@@ -572,6 +858,21 @@ class C20(fw.Check):
             elif op == "add_sec":
                 e["spec"] = gen_sec(rng, rng.choice(["new", "c"]), [])
                 touched.append(("Sec", "name", e["spec"]["name"]))
+                if e["spec"].get("repository"):
+                    touched.append(("Sec", "repository", e["spec"]["repository"]))
+            elif op == "repo":
+                e["v"] = rng.choice(REPOS + [None])
+                touched += [("Doc", "repository", v) for v in (docs[di].get("repository"), e["v"]) if v]
+            elif op == "sec_repo":
+                e["v"] = rng.choice(REPOS + [None])
+                if e["v"]:
+                    touched.append(("Sec", "repository", e["v"]))
+            elif op == "date":
+                e["v"] = rng.choice(DATES)
+                touched += [("Doc", "date", v) for v in (docs[di].get("date"), e["v"]) if v]
+            elif op == "unc":
+                e["v"] = rng.choice(UNCERTAINTIES)
+                touched.append(("Prop", "uncertainty", text_of(e["v"])))
             edits.append(e)
         rng.shuffle(touched)
         return edits, touched
@@ -658,6 +959,11 @@ class C20(fw.Check):
                                    "value_origin": None} for n in range(rng.choice([10, 11]))]
                 wanted.append(("Sec", "name", rng.choice(["s1", "s10", "s%d" % many, "s13"])))
                 wanted.append(("Prop", "name", rng.choice(["p1", "p10", "p11", "p12"])))
+                # round 5: ten and more values of one Property (members rdf:_10, rdf:_11, ...), some of them twice
+                nvals = rng.choice([10, 11, 12])
+                first["props"][0].update({"dtype": "int", "values": [{"i": str(n + 1)} for n in range(nvals)] +
+                                          [{"i": "1"}, {"i": "10"}][:rng.randrange(3)]})
+                many_values = rng.choice([["10"], ["%d" % nvals], ["1", "%d" % nvals], ["13"], ["10", "1"], ["1", "1"]])
             elif kind == "dtypes":
                 if not self.all_secs(docs):
                     docs[0]["secs"].append(gen_sec(rng, "a", []))
@@ -673,6 +979,36 @@ class C20(fw.Check):
                         wanted.append(("Prop", "dtype", dtype))
                 if not wanted:
                     wanted.append(("Prop", "dtype", rng.choice(sorted(kinds))))
+            elif kind == "valuestr":
+                # the list of searched values in the string form, beside other pairs of the same Property
+                # (before and after it), texts with square brackets among them
+                if not self.all_secs(docs):
+                    docs[0]["secs"].append(gen_sec(rng, "a", []))
+                sec = rng.choice(self.all_secs(docs))
+                dtype, vals = VALUE_KINDS[rng.choice(["int", "string", "int2", "float2", "date", "words"])]
+                text = rng.choice(["[x]", "a]", "]", "x", "HAVING", "value", "[", "y z"])
+                attr = rng.choice(["definition", "reference", "unit", "value_origin"])
+                spec = {"name": "vs", "dtype": dtype, "values": vals, "unit": None, "uncertainty": None,
+                        "definition": None, "reference": None, "value_origin": None}
+                spec[attr] = text
+                sec["props"] = sec["props"][:2] + [spec]
+                texts = [text_of(v) for v in vals]
+                vs = rng.sample(texts, rng.choice([1, 1, 2]))
+                if rng.random() < 0.2:
+                    vs[-1] = rng.choice(["21", "z", "[x"])
+                valuestr = [{"k": "Prop", "a": "value", "v": "", "vs": vs},
+                            {"k": "Prop", "a": attr, "v": text if rng.random() < 0.85 else "other", "vs": []}]
+                if rng.random() < 0.5:
+                    valuestr.reverse()
+            elif kind == "surrogate":
+                # a text with a lone surrogate in it (Python reads such texts from file names and broken
+                # input): no text form of the export can carry it, the graph the writer hands out can
+                if not self.all_secs(docs):
+                    docs[0]["secs"].append(gen_sec(rng, "a", []))
+                s = rng.choice(self.all_secs(docs))
+                text = rng.choice([u"lone\ud800x", u"\udfff", u"a\udc80"])
+                s["definition"] = text
+                wanted.append(("Sec", "definition", text))
             elif kind == "edited":
                 edits, touched = self.gen_edits(rng, docs)
                 wanted += [t for t in touched if rng.random() < 0.8]
@@ -697,9 +1033,16 @@ class C20(fw.Check):
             opts = gen_opts(rng, docs)
             if force_custom:
                 opts["writer"] = gen_writer(rng, docs, force_custom=True)
+            if kind == "surrogate":
+                opts["via"] = rng.choice(["graph", "twice"])
+                opts["writer"]["hist"] = [v for v in opts["writer"].get("hist", []) if v == "graph"]
             case = {"stream": "sets", "kind": kind, "docs": docs, "post": post, "opts": opts,
                     "how": rng.choice(["dict", "str"])}
+            if kind == "valuestr":
+                case["how"] = "str"
             value_pair = None
+            if kind == "wide" and rng.random() < 0.7:
+                value_pair = {"k": "Prop", "a": "value", "v": "", "vs": many_values}
             if kind == "dtypes" and rng.random() < 0.6:
                 # a value searched by its text, for the dtypes whose Python text is the text of the export
                 # (a boolean reads True / true, a datetime has a blank / a T, a tuple is a list: which of the
@@ -709,7 +1052,7 @@ class C20(fw.Check):
                 value_pair = {"k": "Prop", "a": "value", "v": "", "vs": [texts[rng.choice(sorted(texts))]]}
             if edits:
                 case["edits"] = edits
-            if i % 3 == 2:
+            if i % 3 == 2 and kind != "valuestr":
                 case["mode"] = "fuzzy"
                 case["attrs"], case["search"] = self.gen_fuzzy(rng, docs)
                 if wanted:
@@ -729,6 +1072,8 @@ class C20(fw.Check):
                         [p for p in pairs if (p["k"], p["a"]) not in [(w[0], w[1]) for w in wanted[:2]]][:2]
                 if value_pair:
                     pairs = [value_pair] + pairs[:2]
+                if kind == "valuestr":
+                    pairs = valuestr + [q for q in pairs if q["k"] != "Prop"][:1]
                 case["pairs"] = pairs
             cases.append(case)
         return cases
@@ -739,6 +1084,8 @@ class C20(fw.Check):
         cases = []
         for _i in range(n):
             docs = gen_docs(rng)
+            if _i % 5 == 4:
+                wordify(rng, docs, rng.choice(sorted(WORD_FAMILIES)))
             steps = []
             for _s in range(rng.choice([1, 2, 3])):
                 opts = gen_opts(rng)
@@ -761,16 +1108,24 @@ class C20(fw.Check):
         cases = []
         for i in range(n):
             docs = gen_docs(rng)
+            # round 5: every 8th search of each mode is about documents whose texts and names are words of
+            # the query notations (mostly those of its own notation), and takes the string form where it can
+            wordy = i % 8 in (2, 3)
+            if wordy:
+                own = "fuzzy" if i % 4 == 3 else "match"
+                wordify(rng, docs, own if rng.random() < 0.6 else rng.choice(sorted(WORD_FAMILIES)))
+            how = "str" if wordy and rng.random() < 0.8 else rng.choice(["dict", "str"])
             if i % 4 == 3:
                 attrs, search = self.gen_fuzzy(rng, docs, risky=(i % 16 == 7))
                 cases.append({"stream": "fuzzy", "docs": docs, "attrs": attrs, "search": search,
-                              "how": rng.choice(["dict", "str"]), "opts": gen_opts(rng, docs)})
+                              "how": how, "opts": gen_opts(rng, docs)})
             else:
                 pairs = self.gen_pairs(rng, docs, i % 4 == 1)
                 rng.shuffle(pairs)
                 cases.append({"stream": "match", "docs": docs, "pairs": pairs,
-                              "how": rng.choice(["dict", "str"]), "opts": gen_opts(rng, docs)})
+                              "how": how, "opts": gen_opts(rng, docs)})
         cases += self.gen_reuse(rng, 44 if tier == "quick" else 400)
+        cases += self.gen_whist(rng, 30 if tier == "quick" else 400)
         cases += self.gen_sets(rng, 64 if tier == "quick" else 800)
         cases += self.gen_creator(rng, 40 if tier == "quick" else 500)
         m = 150 if tier == "quick" else 3000
@@ -834,6 +1189,8 @@ class C20(fw.Check):
             return self.impl_reuse(case)
         if st == "creator":
             return self.impl_creator(case)
+        if st == "whist":
+            return self.impl_whist(case)
         return self.impl_find(case)
 
     @staticmethod
@@ -973,6 +1330,12 @@ class C20(fw.Check):
                 if e["op"] == "author":
                     doc.author = e["v"]
                     continue
+                if e["op"] == "repo":
+                    doc.repository = e["v"]
+                    continue
+                if e["op"] == "date":
+                    doc.date = e["v"]
+                    continue
                 if not doc.sections:
                     continue
                 sec = doc.sections[e["sec"] % len(doc.sections)]
@@ -986,6 +1349,10 @@ class C20(fw.Check):
                     doc.remove(sec)
                 elif e["op"] == "del_prop" and sec.properties:
                     sec.remove(sec.properties[0])
+                elif e["op"] == "sec_repo":
+                    sec.repository = e["v"]
+                elif e["op"] == "unc" and sec.properties:
+                    sec.properties[0].uncertainty = c10.dec_val(e["v"])
             except Exception:
                 pass
 
@@ -1025,7 +1392,37 @@ class C20(fw.Check):
             writer = RDFWriter(arg, rdf_subclassing=False)
         else:
             writer = RDFWriter(arg, rdf_subclassing=False, custom_subclasses=custom)
+        if not linked:
+            for via in w.get("hist") or ():
+                C20.export(writer, via)
         return writer
+
+    @staticmethod
+    def export(writer, via):
+        """one export of the writer, read back into a graph where it is a text / a file"""
+        import rdflib
+        if via in ("turtle", "nt", "n3", "xml", "json-ld"):
+            text = writer.get_rdf_str(via)
+            if isinstance(text, bytes):
+                text = text.decode("utf-8")
+            graph = rdflib.Graph()
+            graph.parse(data=text, format=via)
+            return graph
+        if via == "str":
+            graph = rdflib.Graph()
+            graph.parse(data=str(writer), format="turtle")
+            return graph
+        if via == "file":
+            tmp = tempfile.mkdtemp(prefix="c20_")
+            try:
+                writer.write_file(os.path.join(tmp, "export"), "turtle")
+                graph = rdflib.Graph()
+                for name in sorted(os.listdir(tmp)):        # the writer appends the extension of the format
+                    graph.parse(os.path.join(tmp, name), format="turtle")
+                return graph
+            finally:
+                shutil.rmtree(tmp, ignore_errors=True)
+        return writer.convert_to_rdf()
 
     @classmethod
     def make_graph(cls, docs, specs, via="graph", linked=False, wspec=None, edits=None):
@@ -1036,6 +1433,8 @@ class C20(fw.Check):
         longer have. What the export contains is property C10's business: no second conversion there.)"""
         import rdflib
         writer = cls.build_writer(docs, wspec, linked)
+        if via in ("turtle", "n3", "str", "file") and not turtle_safe([specs, edits]):
+            via = "file_nt" if via == "file" else "nt"
         if edits:
             # one writer, two conversions, the documents edited in between: the second export is the export
             # of the documents as they are now
@@ -1099,7 +1498,7 @@ class C20(fw.Check):
             for sub in ff._subsets:
                 creator = FuzzyFinder._prepare_query(sub)
                 creator._prepare_query()
-                executed.append([[{"k": a[0], "a": a[1][0], "v": "" if isinstance(a[1][1], (list, tuple)) else a[1][1],
+                executed.append([[{"k": a[0], "a": a[1][0], "v": "" if isinstance(a[1][1], (list, tuple)) else u"%s" % (a[1][1],),
                                    "vs": [u"%s" % x for x in a[1][1]] if isinstance(a[1][1], (list, tuple)) else []}
                                   for a in sub], creator.query])
             return executed
@@ -1119,7 +1518,7 @@ class C20(fw.Check):
             str_ok = all(not re.search(r"[,():\"]", v) and v == v.strip() and v for v in case["search"])
             return mode, pairs, plain, q_str, str_ok
         pairs = self.resolve_pairs(case, docs)
-        return "match", pairs, None, render_match(pairs, opts), string_safe(pairs)
+        return "match", pairs, None, render_match(pairs, opts), string_safe(pairs, case.get("stream") == "sets")
 
     def params_of(self, mode, pairs, plain, opts):
         """a new parameter dictionary (new outer and inner objects) for the query"""
@@ -1233,6 +1632,39 @@ class C20(fw.Check):
             except Exception as exc:
                 o["raised"] = fw.exc_name(exc)
             o["expected"] = expected[gi]
+            obs["steps"].append(o)
+        return obs
+
+    def impl_whist(self, case):
+        """one writer, several exports, the documents edited in between; the export of the moment is searched
+        and judged against the documents of that moment"""
+        import warnings
+        warnings.simplefilter("ignore")
+        opts = case.get("opts") or {}
+        docs = self.build_set(case["docs"])
+        writer = self.build_writer(docs, case.get("writer"))
+        obs = {"steps": []}
+        safe = turtle_safe(case)
+        for step in case["steps"]:
+            self.apply_edits(docs, step.get("edits"))
+            graph = self.export(writer, step["via"] if safe or not step.get("search") or step["via"] == "graph" else "nt")
+            if not step.get("search"):
+                continue
+            mode, pairs, plain, q_str, str_ok = self.query_of(case, docs)
+            o = {"docs": [c10.snap_doc(d) for d in docs], "pairs": pairs, "mode": mode}
+            use_str = case.get("how") == "str" and str_ok
+            o["used"] = "str" if use_str else "dict"
+            try:
+                if use_str:
+                    ff, text = self.call_find(mode, graph, opts.get("gpass", "kw"), q_str=q_str)
+                else:
+                    ff, text = self.call_find(mode, graph, opts.get("gpass", "kw"),
+                                              q_params=self.params_of(mode, pairs, plain, opts))
+                o["blocks"] = self.blocks_of(text)
+                o["executed"] = self.executed_of(ff)
+            except Exception as exc:
+                o["raised"] = fw.exc_name(exc)
+            o["expected"] = self.expected(docs, pairs)
             obs["steps"].append(o)
         return obs
 
@@ -1360,6 +1792,10 @@ class C20(fw.Check):
         if st == "reuse":
             # the model has no caller objects: every search of the history is one `find` of the model
             return [{"op": "find", "docs": docs, "pairs": obs["pairs"]} for docs in obs["sets"]]
+        if st == "whist":
+            # ... and no writer object: the export that is searched is the export of the documents as they
+            # are at that moment
+            return [{"op": "find", "docs": o["docs"], "pairs": o["pairs"]} for o in obs["steps"]]
         reqs = [{"op": "find", "docs": obs["docs"], "pairs": obs["pairs"]}]
         if st == "fuzzy":
             reqs.append({"op": "fuzzy", "doc": case["attrs"].get("Doc", []), "sec": case["attrs"].get("Sec", []),
@@ -1392,6 +1828,10 @@ class C20(fw.Check):
         if st == "reuse":
             for i, o in enumerate(obs["steps"]):
                 out += ["step %d: %s" % (i, d) for d in self.compare_find(answers[o["g"]], o)]
+            return out
+        if st == "whist":
+            for i, o in enumerate(obs["steps"]):
+                out += ["search %d: %s" % (i, d) for d in self.compare_find(answers[i], o)]
             return out
         out = self.compare_find(answers[0], obs)
         if st == "fuzzy" and len(answers) > 1 and "raised" not in obs and answers[0]["found"] != "parse-error":
@@ -1427,12 +1867,34 @@ class C20(fw.Check):
                     out.append("rows of %s differ: model %s, implementation %s" % (self.pkey(e["q"]), mrows[:3], irows[:3]))
             inside = ans.get("wf") and ans.get("repr") and ans.get("norepo")
             for e in ans["all"]:
-                if inside and e.get("safe") and e["rows"] != "parse-error":
+                if inside and e.get("safe") and e["rows"] != "parse-error" and e.get("direct") is not None:
                     a = sorted(set(fw.canon(x) for x in e["rows"]))
                     b = sorted(set(fw.canon(x) for x in e["direct"]))
                     if a != b:
                         out.append("inside the hypotheses of query_sound_complete the model's query rows %s differ "
                                    "from its direct evaluation %s" % (a[:3], b[:3]))
+            # Round 5 - the specification of C20.query_sound_complete_full / match_search_reports_exact /
+            # fuzzy_search_reports_exact tied to the implementation: inside their hypotheses (well-formed,
+            # representable documents, RepoOK; every pair of the combination asks for a searchable attribute,
+            # id / value / repository included: QueryFull) the rows the library reports for a combination
+            # are the rows of directEval', and so are the model's queryRows.
+            inside2 = ans.get("wf") and ans.get("repr") and ans.get("repook")
+            for e in ans["all"]:
+                if not (inside2 and e.get("full") and e["rows"] != "parse-error" and e.get("direct2") is not None):
+                    continue
+                spec = sorted(set(fw.canon(x) for x in e["direct2"]))
+                if sorted(set(fw.canon(x) for x in e["rows"])) != spec:
+                    out.append("inside the hypotheses of query_sound_complete_full the model's query rows of %s "
+                               "differ from directEval' %s" % (self.pkey(e["q"]), spec[:3]))
+                text = text_of.get(fw.canon(self.pkey(e["q"])))
+                if text is None:
+                    continue
+                irows = sorted(set(map(tuple, blocks.get(text, []))))
+                srows = sorted(set(tuple(row_key(self.mrow(r))) for r in e["direct2"]))
+                if [list(r) for r in irows] != [list(r) for r in srows]:
+                    out.append("inside the hypotheses of query_sound_complete_full the rows the library reports for "
+                               "%s differ from directEval': library %s, specification %s"
+                               % (self.pkey(e["q"]), irows[:3], srows[:3]))
             if len(ans["found"]) != len(obs["blocks"]):
                 out.append("model reports %d combinations with hits, implementation %d"
                            % (len(ans["found"]), len(obs["blocks"])))
@@ -1454,6 +1916,11 @@ class C20(fw.Check):
             out = []
             for i, o in enumerate(obs["steps"]):
                 out += ["step %d: %s" % (i, f) for f in self.judge(obs["pairs"], o)]
+            return out
+        if case["stream"] == "whist":
+            out = []
+            for i, o in enumerate(obs["steps"]):
+                out += ["search %d: %s" % (i, f) for f in self.judge(o["pairs"], o)]
             return out
         if case["stream"] == "creator":
             return self.oracle_creator(case, obs)
@@ -1546,11 +2013,31 @@ class C20(fw.Check):
         return out
 
     def finding_key(self, case, obs, failure):
-        # No open finding. The repaired ones have no branch, so a regression is a VIOLATION:
-        # finder_keeps_first_graph, empty_graph_refused, parser_keeps_earlier_kinds, string_form_line_feed
-        # (work-fixC20), codepoint_escape_in_value (6c1fc7c), and the three queries that needed another
-        # shape: typed_literal_never_matches (eb38590), value_query_bag_vs_seq (573e2b8),
+        # One open finding (round 5): value_list_swallows_bracket. The repaired ones have no branch, so a
+        # regression is a VIOLATION: finder_keeps_first_graph, empty_graph_refused, parser_keeps_earlier_kinds,
+        # string_form_line_feed (work-fixC20), codepoint_escape_in_value (6c1fc7c), and the three queries that
+        # needed another shape: typed_literal_never_matches (eb38590), value_query_bag_vs_seq (573e2b8),
         # id_repository_never_match (57076b7).
+        return self.bracket_key(case, obs, failure)
+
+    @staticmethod
+    def bracket_key(case, obs, failure):
+        """value_list_swallows_bracket, narrowly: only in the oracle-only stream `sets`, only a match search
+        that went through the STRING form, whose Property part has a list of searched values followed by a
+        pair whose text contains ']' (the parser reads the list up to the last ']' of the Property part) -
+        the string form then differs from the dictionary form / reports rows of other pairs."""
+        try:
+            if case.get("stream") != "sets" or obs.get("mode") != "match" or obs.get("used") != "str":
+                return None
+            if not bracket_after_values(obs.get("pairs") or []):
+                return None
+            if failure == "string and dictionary form of the query give different answers" or \
+                    failure.startswith("combination ") or failure.startswith("reported row sets differ") or \
+                    failure.startswith("a block is reported that belongs to no combination") or \
+                    failure.startswith("a combination is reported more than once"):
+                return "value_list_swallows_bracket"
+        except Exception:
+            pass
         return None
 
     @staticmethod
@@ -1583,6 +2070,9 @@ class C20(fw.Check):
         if st == "reuse":
             hit = any(o.get("blocks") for o in obs.get("steps", []))
             return ("reuse:%s:%s" % (case.get("mode"), "hit" if hit else "miss"), hit)
+        if st == "whist":
+            hit = any(o.get("blocks") for o in obs.get("steps", []))
+            return ("whist:%s:%s" % (case.get("mode"), "hit" if hit else "miss"), hit)
         if st == "creator":
             hit = any(o.get("rows") for o in obs.get("steps", []))
             return ("creator:%s" % ("hit" if hit else "miss"), hit)
